@@ -51,7 +51,7 @@ var keyPool = []string{"a", "b", "c", "foo", "bar", "baz", "k", "name", "id", "n
 var simpleKeys = []string{"a", "b", "c", "foo", "bar", "k", "name", "id", "n", "x"}
 var strPool = []string{"", "a", "ab", "abc", "b", "ba", "hello", "héllo", "世界", "😀x", "a b", "1", "-1.5", "1e3",
 	"x'y", "x\"y", "back\\slash", "tick`", "<&>", " ", "\x7f", "A", "Z", "zz", "0", " 1", "1 ", "true", "null",
-	"é", "é", "aa", "aaa", "x", "y", "z", "abcabc", "bc", "\\", "a\\'b", "\t", "\n"}
+	"é", "é", "aa", "aaa", "x", "y", "z", "abcabc", "bc", "\\", "a\\'b", "\t", "\n", "100%", "%d%s%v", "%"}
 var numPool = []float64{0, 1, -1, 2, 3, 4, 5, 10, 0.5, -0.5, 1.5, 2.5, 100, -7, 1000, 0.25, 3.75, 1e21, 1e-7,
 	123456789, 9007199254740992, -2.5, 7, 42, 0.1, 3.14, 1e6, -100, 1e-3, 6, 8, 9}
 
@@ -99,6 +99,7 @@ type gen struct {
 	budget int
 	noProj, noFn, noLogic bool // restrict to a fragment
 	paths                 bool // prefer document paths over literals as function arguments
+	extreme               bool // draw integers from the int64 extremes more often (typed documents)
 }
 
 func (g *gen) num() float64 {
@@ -254,8 +255,9 @@ func (g *gen) someKey(cur interface{}) string {
 func (g *gen) intTok(n int) string {
 	lo, hi := -n-2, n+2
 	v := lo + g.r.intn(hi-lo+1)
-	if g.r.chance(3) {
-		v = []int{math.MaxInt64, math.MinInt64, math.MaxInt64 - 1, math.MinInt64 + 1, 1 << 62, -(1 << 62), 1 << 32, -(1 << 31)}[g.r.intn(8)]
+	if g.r.chance(3) || (g.extreme && g.r.chance(12)) {
+		v = []int{math.MaxInt64, math.MinInt64, math.MaxInt64 - 1, math.MinInt64 + 1, 1 << 62, -(1 << 62), 1 << 32, -(1 << 31),
+			math.MaxInt64 - 3, math.MinInt64 + 4}[g.r.intn(10)]
 	}
 	return strconv.Itoa(v)
 }
